@@ -4,6 +4,7 @@ package main
 // identity), inlining of repo callees that can touch tracked state.
 
 import (
+	"os"
 	"fmt"
 	"go/types"
 	"strings"
@@ -118,6 +119,9 @@ func (x *Explorer) call(fr *Frame, b *ssa.BasicBlock, idx int, ins *ssa.Call, st
 		})
 		return true
 	}
+	if os.Getenv("LEDGERLINT_OPAQUE") != "" && isRepoPkgPath(fnPkgPath(callee)) {
+		fmt.Fprintf(os.Stderr, "OPAQUE %s\n", callee.String())
+	}
 	fr.env[ins] = x.opaqueResult(st, ins, shortFn(callee), args)
 	return false
 }
@@ -148,6 +152,10 @@ func (x *Explorer) shouldInline(fn *ssa.Function, binds []Val) bool {
 		return false
 	}
 	if x.touches[fn] || len(binds) > 0 || fn.Parent() != nil {
+		return true
+	}
+	// helpers living beside state-touching code (extracted guards, bound/key builders, packet builders)
+	if x.statePkgs[pp] {
 		return true
 	}
 	if x.validatorMode && fn.Signature.Recv() != nil && (fn.Name() == "Validate" || fn.Name() == "ValidateBasic") {
@@ -194,6 +202,11 @@ func (x *Explorer) opaqueResult(st *State, ins *ssa.Call, name string, args []Va
 		as = append(as, st.canon(a))
 	}
 	term := name + "(" + strings.Join(as, ", ") + ")"
+	// calls through interfaces of other modules (ICA controller, capability keeper, hashers …) are
+	// recorded so rules can reason about their arguments and the facts they lie behind
+	if strings.HasPrefix(name, "invoke:") {
+		st.events = append(st.events, Event{Kind: "ext", Method: strings.TrimPrefix(name, "invoke:"), Args: args, Loop: x.curTag, Pos: ins, Fn: ins.Parent(), Facts: len(st.facts), Seq: len(st.events)})
+	}
 	// a tracked row escaping into unknown code can be modified there
 	for _, a := range args {
 		if p, ok := a.(*Ptr); ok {
@@ -249,6 +262,41 @@ func (x *Explorer) builtin(fr *Frame, st *State, ins *ssa.Call, args []Val) Val 
 			as = append(as, vstr(a))
 		}
 		st.events = append(st.events, Event{Kind: "call", Method: "append", Args: args, Loop: x.loopTag(fr, ins.Block()), Pos: ins, Fn: fr.fn, Seq: len(st.events)})
+		// appending single values to a sequence whose elements are all known (nil, make(_, 0, _),
+		// or an earlier such append) yields a sequence whose elements are all known
+		// (go/ssa lowers append(s, a, b) to append(s, <[2]T literal>[:]))
+		if len(args) == 2 {
+			known := isK(args[0], "nil")
+			var els []Val
+			if p, ok := args[0].(*Ptr); ok && p.Path == "" {
+				if o := st.mem[p.O]; o != nil && o.Kind == "array" && (o.Origin == "make:0" || o.Origin == "seq") {
+					if e, ok := x.sliceElems(st, p); ok {
+						known, els = true, e
+					}
+				}
+			}
+			var add []Val
+			if p, ok := args[1].(*Ptr); ok && p.Path == "" && known {
+				known = false
+				if o := st.mem[p.O]; o != nil && o.Kind == "array" {
+					if at, isArr := o.T.Underlying().(*types.Array); isArr {
+						if e, ok := x.sliceElems(st, p); ok && int64(len(e)) == at.Len() {
+							known, add = true, e
+						}
+					}
+				}
+			} else {
+				known = false
+			}
+			if known {
+				o := st.newObj("array", ins.Type())
+				o.Origin = "seq"
+				for i, v := range append(append([]Val{}, els...), add...) {
+					o.F[fmt.Sprintf("[%d]", i)] = v
+				}
+				return &Ptr{O: o.ID}
+			}
+		}
 		return &Sym{N: "append(" + strings.Join(as, ", ") + ")", T: ins.Type()}
 	case "copy", "delete", "print", "println":
 		return &KConst{S: "0"}
